@@ -181,3 +181,53 @@ Definition normal_parts (ps : list rt) : bool :=
 
 (* the texts the API builds: in normal form and well-formed (Proofs: mkc_good, eval_good) *)
 Definition good (t : rt) : Prop := normal t = true /\ wf t.
+
+(* ------------------------------------------------------------------------------ *)
+(* histories with split as a step: a relational semantics on pair sequences.  Every clause is
+   the string operation on the sequence; the two stated exceptions are explicit clauses:
+   an int index outside the bounds (F23: str raises, a multipart text returns some text -- the
+   result is left unspecified) and split, whose pieces are specified by their laws (they
+   re-assemble, Protected is one piece, every piece keeps the top-level markup) but not by the
+   positions of the cuts at part boundaries (F17s). *)
+Definition split_law (sep : sepk) (r : sval) (pieces : list flat_text) : Prop :=
+  match sep with
+  | SepNone => concat pieces = drop_ws (snd r)
+  | SepDelim => concat pieces = snd r
+  | _ => False
+  end /\ (fst r = Some MProt -> pieces = [snd r]).
+
+Definition cap_top (m : option markup) : option markup := match m with Some MProt => m | _ => None end.
+
+Inductive hsem : expr -> sval -> Prop :=
+| hs_str s : hsem (EStr s) (None, map (fun c => (ACh c, [])) s)
+| hs_sym n : hsem (ESym n) (None, [(ASym n, [])])
+| hs_text ps rs : Forall2 hsem ps rs -> hsem (EText ps) (sctor None rs)
+| hs_tag n ps rs : Forall2 hsem ps rs -> hsem (ETag n ps) (sctor (Some (MTag (canon_name n))) rs)
+| hs_href u x ps rs : Forall2 hsem ps rs -> hsem (EHRef u x ps) (sctor (Some (MHRef u x)) rs)
+| hs_prot ps rs : Forall2 hsem ps rs -> hsem (EProt ps) (sctor (Some MProt) rs)
+| hs_upper a r : hsem a r -> hsem (EUpper a) (fst r, map (conv_pair true) (snd r))
+| hs_lower a r : hsem a r -> hsem (ELower a) (fst r, map (conv_pair false) (snd r))
+| hs_capitalize a r : hsem a r -> hsem (ECapitalize a) (cap_top (fst r), capitalize_flat (snd r))
+| hs_capfirst a r : hsem a r -> hsem (ECapfirst a) (cap_top (fst r), capfirst_flat (snd r))
+| hs_addperiod a r p : hsem a r -> hsem (EAddPeriod a p) (fst r, add_period_flat (fst r) (snd r) p)
+| hs_slice a r i j : hsem a r -> hsem (ESlice a i j) (fst r, pyslice (snd r) i j)
+| hs_index a r i p : hsem a r -> pyindex (snd r) i = Some p -> hsem (EIndex a i) (fst r, [p])
+| hs_index_f23 a r i q : hsem a r -> pyindex (snd r) i = None -> hsem (EIndex a i) (fst r, q)
+| hs_add a b ra rb : hsem a ra -> hsem b rb -> hsem (EAdd a b) (None, snd ra ++ snd rb)
+| hs_append a b ra rb : hsem a ra -> hsem b rb -> hsem (EAppend a b) (fst ra, snd ra ++ push_opt (fst ra) (snd rb))
+| hs_join s es rs rl : hsem s rs -> Forall2 hsem es rl -> hsem (EJoin s es) (None, join_flat (snd rs) (map snd rl))
+| hs_split a r sep keep k pieces q : hsem a r -> split_law sep r pieces -> nth_error pieces k = Some q ->
+    hsem (ESplitNth a sep keep k) (fst r, q).
+
+(* the expressions covered: everything but abbreviate (not in the property) and split on a string
+   separator *)
+Fixpoint covered (e : expr) : bool :=
+  match e with
+  | EStr _ | ESym _ | EBad => true
+  | EText ps | ETag _ ps | EHRef _ _ ps | EProt ps => forallb covered ps
+  | EUpper a | ELower a | ECapitalize a | ECapfirst a | EAddPeriod a _ | ESlice a _ _ | EIndex a _ => covered a
+  | EAbbrev _ => false
+  | EAdd a b | EAppend a b => covered a && covered b
+  | EJoin s es => covered s && forallb covered es
+  | ESplitNth a sep _ _ => covered a && match sep with SepNone | SepDelim => true | _ => false end
+  end.
